@@ -33,7 +33,13 @@ RULE = ('one case = a history of 1..8 public mutators (reassign_label(s), relabe
         'each mutator a random subset of derived attributes is read on the live object; after each step array+dtype are '
         'compared with a numpy model and every public attribute with a fresh SegmentationImage and numpy definitions; '
         'non-trivial = at least one mutator changed the array (or assigned data) while >=1 derived attribute was cached '
-        'on the live object; distinct by digest of the initial array and the applied operation list')
+        'on the live object; distinct by digest of the initial array and the applied operation list. Independently of '
+        'the class: shapes (plain / 1xN / Nx1 / strongly elongated), layouts of constructor and data-setter arrays '
+        '(C / Fortran / strided / transposed / offset views, big-endian, read-only), call forms of every argument '
+        '(Python int, numpy scalars of all integer dtypes, 0-d arrays, list, tuple, arrays incl. strided, list of numpy '
+        'scalars, range, set [counted, not judged], positional / keyword / mixed), mask dtype (bool, uint8, int64, '
+        'float64, nested list) and layout, all option combinations, degenerate states (all zero, one label '
+        'everywhere, labels only on the border ring, every label named / removed) at any step; notes axis_* count them')
 CLASSES = ['blobs', 'scatter', 'disconnected', 'no_background', 'single_pixel', 'all_zero', 'gaps_big',
            'dtype_max', 'border', 'tiny', 'layout', 'detect', 'deblend']
 _Q = 'photutils.segmentation.core:SegmentationImage.'
@@ -156,53 +162,158 @@ class Ctx:
         return m
 
 
-def _label_arg(rng, D, single, dtype, p_invalid=0.08):
-    """(arg, kind, valid, as_list) for label-taking methods."""
+NP_INT = [np.int8, np.uint8, np.int16, np.uint16, np.int32, np.uint32, np.int64, np.uint64, np.intp]
+
+
+def _fit_dtype(rng, values):
+    """A random numpy integer dtype able to hold all `values`."""
+    lo, hi = min(list(values) + [0]), max(list(values) + [0])
+    cands = [d for d in NP_INT if np.iinfo(d).min <= lo and hi <= np.iinfo(d).max]
+    return np.dtype(cands[int(rng.integers(0, len(cands)))])
+
+
+def _scalar_form(case, v, axis, p_plain=0.45):
+    """Integer `v` as Python int / numpy scalar of a random dtype / 0-d array. -> (value, kind, dtype name)"""
+    rng = case.rng
+    r = rng.random()
+    if r < p_plain:
+        kind, out, dn = 'python_int', int(v), None
+    else:
+        dt = _fit_dtype(rng, [int(v)])
+        dn = dt.name
+        if r < p_plain + (1 - p_plain) * 0.65:
+            kind, out = 'numpy_scalar', dt.type(v)
+        else:
+            kind, out = 'zero_d_array', np.array(v, dtype=dt)
+    case.note(f'axis_callform_{axis}_{kind}')
+    return out, kind, dn
+
+
+def _label_arg(case, D, single, dtype, p_invalid=0.08, axis='labels'):
+    """Label argument for label-taking methods in a randomly drawn call form.
+    -> dict(arg, kind, dtype, valid, lst, either): `either` marks forms the documentation does not name
+    (set): a rejection is counted, an accepted call is judged."""
+    rng = case.rng
     labs = D.labels
+    out = dict(dtype=None, either=False)
     invalid = (not labs) or rng.random() < p_invalid
     if invalid:
         pool = [0, -1, D.max_label + 1, D.max_label + 3] + D.missing[:3]
         bad = int(pool[int(rng.integers(0, len(pool)))])
         if single:
-            return bad, 'scalar_int', False, [bad]
+            out.update(arg=bad, kind='python_int', valid=False, lst=[bad])
+            return out
         good = [int(v) for v in rng.choice(labs, size=min(len(labs), 2), replace=False)] if labs else []
         lst = good + [bad]
-        return lst, 'list', False, lst
+        if rng.random() < 0.5:
+            out.update(arg=lst, kind='list', valid=False, lst=lst)
+        else:
+            out.update(arg=np.array(lst, dtype=np.int64), kind='array', dtype='int64', valid=False, lst=lst)
+        return out
     if single:
         lab = int(labs[int(rng.integers(0, len(labs)))])
-        k = int(rng.integers(0, 3))
-        if k == 0:
-            return lab, 'scalar_int', True, [lab]
-        if k == 1:
-            return np.int64(lab), 'scalar_np', True, [lab]
-        return dtype.type(lab), 'scalar_dtype', True, [lab]
-    n = int(rng.integers(1, len(labs) + 1))
-    if rng.random() < 0.6:
-        n = min(n, 2)
-    lst = [int(v) for v in rng.choice(labs, size=n, replace=False)]
-    if rng.random() < 0.15:
-        lst = lst + [lst[0]]                                   # duplicate entry
-    k = int(rng.integers(0, 6))
+        if rng.random() < 0.15:
+            arg, kind, dn = dtype.type(lab), 'numpy_scalar', dtype.name
+            case.note(f'axis_callform_{axis}_numpy_scalar')
+        else:
+            arg, kind, dn = _scalar_form(case, lab, axis)
+        out.update(arg=arg, kind=kind, dtype=dn, valid=True, lst=[lab])
+        return out
+    r = rng.random()
+    if r < 0.12:                                               # every label (degenerate: remove all / keep all)
+        lst = list(labs)
+        rng.shuffle(lst)
+        case.note('axis_degenerate_all_labels_named')
+    else:
+        n = int(rng.integers(1, len(labs) + 1))
+        if rng.random() < 0.6:
+            n = min(n, 2)
+        lst = [int(v) for v in rng.choice(labs, size=n, replace=False)]
+        if rng.random() < 0.15:
+            lst = lst + [lst[0]]                               # duplicate entry
+    k = int(rng.integers(0, 10))
+    dn = None
     if k == 0:
-        return lst, 'list', True, lst
-    if k == 1:
-        return tuple(lst), 'tuple', True, lst
-    if k == 2:
-        return np.array(lst, dtype=np.int64), 'array_i64', True, lst
-    if k == 3:
-        return np.array(lst, dtype=dtype), 'array_dtype', True, lst
-    if k == 4:
-        return lst[0], 'scalar_int', True, [lst[0]]
-    return np.array(lst, dtype=np.int32 if dtype.itemsize >= 4 else np.int64), 'array_i32', True, lst
+        arg, kind = list(lst), 'list'
+    elif k == 1:
+        arg, kind = tuple(lst), 'tuple'
+    elif k in (2, 3):
+        dt = _fit_dtype(rng, lst)
+        arg, kind, dn = np.array(lst, dtype=dt), 'array', dt.name
+    elif k == 4:
+        arg, kind, dn = np.array(lst, dtype=dtype), 'array', dtype.name
+    elif k == 5:
+        dt = _fit_dtype(rng, lst)
+        arg, kind, dn = [dt.type(v) for v in lst], 'list_of_numpy_scalars', dt.name
+    elif k == 6:
+        lst = [lst[0]]
+        arg, kind, dn = _scalar_form(case, lst[0], axis, p_plain=0.3)
+    elif k == 7 and len(lst) >= 2 and lst == list(range(lst[0], lst[0] + len(lst))):
+        arg, kind = range(lst[0], lst[0] + len(lst)), 'range'
+    elif k == 8:
+        arg, kind = set(lst), 'set'
+        out['either'] = True
+    else:
+        dt = _fit_dtype(rng, lst)
+        arg, kind, dn = np.asfortranarray(np.array([lst, lst], dtype=dt))[0], 'array_strided', dt.name
+    if k != 6:
+        case.note(f'axis_callform_{axis}_{kind}')
+    out.update(arg=arg, kind=kind, dtype=dn, valid=True, lst=lst)
+    return out
 
 
 def _empty_arg(rng):
-    k = int(rng.integers(0, 3))
+    k = int(rng.integers(0, 4))
     if k == 0:
         return [], 'empty_list'
     if k == 1:
         return np.array([], dtype=int), 'empty_int_array'
+    if k == 2:
+        return np.array([], dtype=np.uint8), 'empty_uint8_array'
     return (), 'empty_tuple'
+
+
+def _styled_call(case, name, params):
+    """params: [(parameter name, value, given?)] in signature order. Returns call(obj) passing the given
+    parameters positionally, by keyword, or mixed (all are positional-or-keyword in the documented signatures)."""
+    rng = case.rng
+    style = ['positional', 'keyword', 'mixed'][int(rng.integers(0, 3))]
+    nlead = 0
+    while nlead < len(params) and params[nlead][2]:
+        nlead += 1
+    if style == 'keyword':
+        npos = 0
+    elif style == 'positional':
+        npos = nlead
+    else:
+        npos = int(rng.integers(1, nlead + 1)) if nlead else 0
+    pos = [params[j][1] for j in range(npos)]
+    kw = {n: v for n, v, g in params[npos:] if g}
+    case.note('axis_argstyle_' + style)
+    return lambda o: getattr(o, name)(*pos, **kw)
+
+
+def _mask_form(case, mask):
+    """The boolean `mask` in a randomly drawn dtype / container / layout. -> (arg, dtype kind, layout kind)"""
+    rng = case.rng
+    r = rng.random()
+    if r < 0.62:
+        arg, dk = mask.copy(), 'bool'
+    elif r < 0.72:
+        arg, dk = mask.astype(np.uint8), 'uint8'
+    elif r < 0.80:
+        arg, dk = mask.astype(np.int64), 'int64'
+    elif r < 0.87:
+        arg, dk = mask.astype(float), 'float64'
+    else:
+        arg, dk = mask.tolist(), 'nested_list'
+    lk = 'plain'
+    if dk != 'nested_list' and rng.random() < 0.4:
+        arg, lk = gen.relayout(rng, arg, kinds=['fortran', 'strided_view', 'transposed_view', 'offset_view',
+                                               'readonly'])
+    case.note('axis_mask_dtype_' + dk)
+    case.note('axis_mask_layout_' + lk)
+    return arg, dk, lk
 
 
 # ----------------------------------------------------------------------
@@ -289,16 +400,17 @@ def observe(ctx, attr):
     case, obj, D, cur, rng = ctx.case, ctx.obj, ctx.D, ctx.cur, ctx.case.rng
     expect_invalid = False
     arg = None
+    either = False
     if attr in ('get_index', 'get_area'):
-        arg, kind, valid, lst = _label_arg(rng, D, True, cur.dtype, p_invalid=0.15)
-        expect_invalid = not valid
+        la = _label_arg(case, D, True, cur.dtype, p_invalid=0.15, axis='read_label')
+        arg, lst, expect_invalid = la['arg'], la['lst'], not la['valid']
     elif attr in ('get_indices', 'get_areas', 'check_labels'):
         if rng.random() < 0.1:
             arg, kind = _empty_arg(rng)
-            valid, lst = True, []
+            lst = []
         else:
-            arg, kind, valid, lst = _label_arg(rng, D, False, cur.dtype, p_invalid=0.15)
-        expect_invalid = not valid
+            la = _label_arg(case, D, False, cur.dtype, p_invalid=0.15, axis='read_labels')
+            arg, lst, expect_invalid, either = la['arg'], la['lst'], not la['valid'], la['either']
     elif attr == 'getitem':
         ny, nx = cur.shape
         y0, x0 = int(rng.integers(0, ny)), int(rng.integers(0, nx))
@@ -326,6 +438,9 @@ def observe(ctx, attr):
         if expect_invalid and isinstance(exc, ValueError):
             case.check(True, 'invalid_label_rejected', ctx.mech(attr))
             return True
+        if either:                      # a call form the documentation does not name (set): counted, not judged
+            case.note('undocumented_form_rejected_' + attr)
+            return True
         m = ctx.mech(attr, exc=type(exc).__name__, at=core.exc_location(exc))
         if attr == 'segments':
             m.update(_poly_flags(D))
@@ -340,10 +455,14 @@ def observe(ctx, attr):
     chk = case.check
     if attr == 'labels':
         chk(_ints(val) == D.labels, 'labels_vs_definition', mech, obs=_ints(val)[:30], exp=D.labels[:30])
-        chk(np.asarray(val).dtype == cur.dtype, 'labels_dtype', mech, obs=str(np.asarray(val).dtype),
+        # byte order is not part of the comparison (documentation silent): counted only
+        nat = lambda d: np.dtype(d).newbyteorder('=')      # noqa: E731
+        if np.asarray(val).dtype != cur.dtype and nat(np.asarray(val).dtype) == nat(cur.dtype):
+            case.note('labels_byteorder_differs_from_data')
+        chk(nat(np.asarray(val).dtype) == nat(cur.dtype), 'labels_dtype', mech, obs=str(np.asarray(val).dtype),
             exp=str(cur.dtype))
         if fv is not Fresh.FAILED:
-            chk(np.array_equal(val, fv) and np.asarray(val).dtype == fv.dtype, 'labels_vs_fresh', mech)
+            chk(np.array_equal(val, fv) and nat(np.asarray(val).dtype) == nat(fv.dtype), 'labels_vs_fresh', mech)
     elif attr == 'nlabels':
         chk(int(val) == D.nlabels, 'nlabels_vs_definition', mech, obs=int(val), exp=D.nlabels)
     elif attr == 'max_label':
@@ -398,7 +517,7 @@ def observe(ctx, attr):
         chk(int(val) == D.index(lst[0]), 'get_index_vs_definition', mech, obs=int(val), label=lst[0])
     elif attr == 'get_indices':
         exp = [D.index(v) for v in lst]
-        chk(_ints(val) == exp and np.shape(val) == np.shape(arg), 'get_indices_vs_definition', mech,
+        chk(_ints(val) == exp and (either or np.shape(val) == np.shape(arg)), 'get_indices_vs_definition', mech,
             obs=_ints(val), exp=exp)
     elif attr == 'get_area':
         chk(int(val) == D.areas[D.index(lst[0])], 'get_area_vs_definition', mech, obs=int(val), label=lst[0])
@@ -476,7 +595,17 @@ def _initial(case):
                 return deb, None, dmap, info
         case.skip('scene without detections')
     dtype = gen.pick_dtype(rng)
-    shape = gen._shape(rng)
+    shape, sk = gen.any_shape(rng, plain=0.75)
+    case.note('axis_shape_initial_' + sk)
+    info['shape_kind'] = sk
+    if cls != 'all_zero' and rng.random() < 0.1:          # degenerate start, whatever the class
+        kind = ['all_zero', 'constant_label', 'border_only'][int(rng.integers(0, 3))]
+        data = (np.zeros(shape, dtype=dtype) if kind == 'all_zero' else
+                gen.constant_label(rng, shape, dtype) if kind == 'constant_label' else
+                gen.border_only(rng, shape, dtype))
+        case.note('axis_degenerate_initial_' + kind)
+        info['degenerate'] = kind
+        return _finish_initial(case, data, info)
     if cls == 'blobs':
         data = gen.blobs(rng, shape, dtype)
     elif cls == 'scatter':
@@ -511,35 +640,65 @@ def _initial(case):
     else:  # layout
         data, lay = gen.relayout(rng, gen.blobs(rng, shape, dtype))
         info['layout'] = lay
-    info.update(dtype=str(data.dtype), shape=list(data.shape))
+        case.note('axis_layout_initial_' + lay)
+        info.update(dtype=str(data.dtype), shape=list(data.shape))
+        return SegmentationImage(data), data, {}, info
+    return _finish_initial(case, data, info)
+
+
+def _finish_initial(case, data, info):
+    """Layout axis independent of the class: 40 % of the raw arrays get a non-plain layout/container."""
+    from photutils.segmentation import SegmentationImage
+    lay = 'plain'
+    if case.rng.random() < 0.4:
+        data, lay = gen.relayout(case.rng, data)
+    case.note('axis_layout_initial_' + lay)
+    info.update(layout=lay, dtype=str(data.dtype), shape=list(data.shape))
     return SegmentationImage(data), data, {}, info
 
 
-def _new_data(rng, D, cur):
-    """Array for `.data = value`: (value, kind)."""
-    k = int(rng.integers(0, 10))
-    dtype = cur.dtype if rng.random() < 0.5 else gen.pick_dtype(rng)
-    shape = cur.shape if rng.random() < 0.6 else gen._shape(rng)
+def _new_data(case, D, cur):
+    """Array for `.data = value`: (value, kind, layout)."""
+    rng = case.rng
+    k = int(rng.integers(0, 13))
+    dtype = cur.dtype.newbyteorder('=') if rng.random() < 0.5 else gen.pick_dtype(rng)
+    if rng.random() < 0.6:
+        shape, sk = cur.shape, 'same'
+    else:
+        shape, sk = gen.any_shape(rng)
+    case.note('axis_shape_setdata_' + sk)
+    lay = 'plain'
     if k == 0:
-        return np.zeros(shape, dtype=dtype), 'all_zero'
-    if k == 1:
-        return gen.no_background(rng, shape, dtype), 'no_background'
-    if k == 2:
-        return gen.disconnected(rng, shape, dtype), 'disconnected'
-    if k == 3:
-        return gen.scatter(rng, shape, dtype), 'scatter'
-    if k == 4:
-        return cur.astype(float), 'invalid_float'
-    if k == 5:
+        value, kind = np.zeros(shape, dtype=dtype), 'all_zero'
+    elif k == 1:
+        value, kind = gen.no_background(rng, shape, dtype), 'no_background'
+    elif k == 2:
+        value, kind = gen.disconnected(rng, shape, dtype), 'disconnected'
+    elif k == 3:
+        value, kind = gen.scatter(rng, shape, dtype), 'scatter'
+    elif k == 4:
+        return cur.astype(float), 'invalid_float', lay
+    elif k == 5:
         sd = np.dtype(np.int16) if dtype.kind == 'u' else dtype
         v = gen.blobs(rng, shape, sd)
         v[0, 0] = -1
-        return v, 'invalid_negative'
-    if k == 6:
-        return gen.relayout(rng, gen.blobs(rng, shape, dtype))[0], 'layout'
-    if k == 7:
-        return cur.copy(), 'same_values'
-    return gen.blobs(rng, shape, dtype), 'blobs'
+        return v, 'invalid_negative', lay
+    elif k == 6:
+        value, kind = gen.constant_label(rng, shape, dtype), 'constant_label'
+    elif k == 7:
+        value, kind = cur.copy(), 'same_values'
+    elif k == 8:
+        value, kind = gen.border_only(rng, shape, dtype), 'border_only'
+    elif k == 9:
+        value, kind = gen.single_pixel(rng, shape, dtype), 'single_pixel'
+    else:
+        value, kind = gen.blobs(rng, shape, dtype), 'blobs'
+    if kind in ('all_zero', 'constant_label', 'border_only'):
+        case.note('axis_degenerate_setdata_' + kind)
+    if rng.random() < 0.4:
+        value, lay = gen.relayout(rng, value)
+    case.note('axis_layout_setdata_' + lay)
+    return value, kind, lay
 
 
 # ----------------------------------------------------------------------
@@ -568,8 +727,9 @@ def _new_label(rng, D, dtype, exclude):
     return int(cands[int(rng.integers(0, len(cands)))]), 'unused'
 
 
-def _gen_op(rng, model, D):
+def _gen_op(case, model, D):
     """-> (op, call(obj), apply(model), mech-extras, description)"""
+    rng = case.rng
     dtype = model.data.dtype
     w = OPW.copy()
     if not D.labels:            # nothing left to operate on: mostly assign new data
@@ -578,64 +738,77 @@ def _gen_op(rng, model, D):
         w[9] *= 8
     op = OPS[int(rng.choice(len(OPS), p=w / w.sum()))]
     relabel = bool(rng.random() < 0.5)
+    give_relabel = bool(rng.random() < 0.8)
+    if not give_relabel:
+        relabel = False
     ex = {}
     if op in ('reassign_label', 'reassign_labels'):
         single = op == 'reassign_label'
         if not single and rng.random() < 0.08:
             arg, kind = _empty_arg(rng)
-            lst = []
+            la = dict(arg=arg, kind=kind, dtype=None, valid=True, lst=[], either=False)
         else:
-            arg, kind, valid, lst = _label_arg(rng, D, single, dtype)
+            la = _label_arg(case, D, single, dtype)
+        lst = la['lst']
         new, nk = _new_label(rng, D, dtype, lst)
-        kw = {'relabel': relabel} if rng.random() < 0.8 else {}
-        relabel = kw.get('relabel', False)
-        ex = dict(relabel=relabel, arg_kind=kind, new_label=nk, empty_label_set=(len(lst) == 0))
+        newarg, nform, ndt = _scalar_form(case, new, 'new_label') if new >= 0 else (new, 'python_int', None)
+        ex = dict(relabel=relabel, arg_kind=la['kind'], new_label=nk, new_label_form=nform,
+                  empty_label_set=(len(lst) == 0), _either=la['either'])
         if new == int(np.iinfo(dtype).max):
             ex['label_at_dtype_max'] = True
-        return (op, lambda o: getattr(o, op)(arg, new, **kw),
-                lambda m: m.reassign(lst, new, relabel=relabel), ex, f'{op}({lst}->{new},relabel={relabel})')
+        call = _styled_call(case, op, [('label' if single else 'labels', la['arg'], True),
+                                       ('new_label', newarg, True), ('relabel', relabel, give_relabel)])
+        return (op, call, lambda m: m.reassign(lst, new, relabel=relabel), ex,
+                f'{op}({lst}->{new},relabel={relabel})[{la["kind"]}:{la["dtype"]},{nform}:{ndt}]')
     if op == 'relabel_consecutive':
         top = int(np.iinfo(dtype).max)
         r = rng.random()
         n = max(D.nlabels, 1)
+        given = True
         if r < 0.3:
-            args, start = (), 1
+            given, start = False, 1
         elif r < 0.5:
-            args, start = (1,), 1
+            start = 1
         elif r < 0.9:
             start = int(rng.integers(2, 10))
             if start + n - 1 > top:
                 start = 1
-            args = (start,)
         elif r < 0.93 and dtype.itemsize <= 2 and top - n + 1 > 0:
             start = top - n + 1
-            args = (start,)
             ex['label_at_dtype_max'] = True
         else:
             start = int(rng.choice([0, -2]))
-            args = (start,)
-        if args and rng.random() < 0.3:
-            args = (np.int64(args[0]),)
+        sarg, sform, sdt = _scalar_form(case, start, 'start_label') if given else (None, 'default', None)
+        if sform in ('numpy_scalar', 'zero_d_array'):
             ex['start_label_numpy_scalar'] = True
-        ex.update(start_label=('default' if not args else 'one' if start == 1 else 'invalid' if start <= 0 else 'other'))
+        ex.update(start_label=('default' if not given else 'one' if start == 1 else 'invalid' if start <= 0
+                               else 'other'), start_label_form=sform)
         ex['_start'] = start
-        return (op, lambda o: o.relabel_consecutive(*args),
-                lambda m: m.relabel_consecutive(start), ex, f'relabel_consecutive({start})')
+        call = _styled_call(case, op, [('start_label', sarg, given)])
+        return (op, call, lambda m: m.relabel_consecutive(start), ex,
+                f'relabel_consecutive({start})[{sform}:{sdt}]')
     if op in ('keep_label', 'keep_labels', 'remove_label', 'remove_labels'):
         single = not op.endswith('s')
         if not single and rng.random() < 0.1:
             arg, kind = _empty_arg(rng)
-            lst = []
+            la = dict(arg=arg, kind=kind, dtype=None, valid=True, lst=[], either=False)
         else:
-            arg, kind, valid, lst = _label_arg(rng, D, single, dtype)
-        kw = {'relabel': relabel} if rng.random() < 0.8 else {}
-        relabel = kw.get('relabel', False)
+            la = _label_arg(case, D, single, dtype)
+        lst = la['lst']
         keep = op.startswith('keep')
         nothing = (set(lst) >= set(D.labels)) if keep else (len(lst) == 0)
-        ex = dict(relabel=relabel, arg_kind=kind, empty_label_set=bool(nothing))
-        return (op, lambda o: getattr(o, op)(arg, **kw),
+        ex = dict(relabel=relabel, arg_kind=la['kind'], empty_label_set=bool(nothing), _either=la['either'])
+        if la['valid'] and D.labels and ((not keep and set(lst) >= set(D.labels)) or (keep and not lst)):
+            case.note('axis_degenerate_every_label_removed')
+        call = _styled_call(case, op, [('label' if single else 'labels', la['arg'], True),
+                                       ('relabel', relabel, give_relabel)])
+        return (op, call,
                 (lambda m: m.keep(lst, relabel=relabel)) if keep else (lambda m: m.remove(lst, relabel=relabel)),
-                ex, f'{op}({lst},relabel={relabel})')
+                ex, f'{op}({lst},relabel={relabel})[{la["kind"]}:{la["dtype"]}]')
+    po = bool(rng.random() < 0.55)
+    give_po = bool(rng.random() < 0.85)
+    if not give_po:
+        po = True
     if op == 'remove_border_labels':
         r = rng.random()
         half = min(model.data.shape) / 2
@@ -645,24 +818,17 @@ def _gen_op(rng, model, D):
             width = int(rng.integers(1, 4))
         else:
             width = int(np.ceil(half)) + int(rng.integers(0, 2))
-        po = bool(rng.random() < 0.6)
-        warg = np.int64(width) if rng.random() < 0.2 else width
-        kw = {}
-        if rng.random() < 0.85:
-            kw['partial_overlap'] = po
-        else:
-            po = True
-        if rng.random() < 0.8:
-            kw['relabel'] = relabel
-        else:
-            relabel = False
-        ex = dict(relabel=relabel, partial_overlap=po, border_width_zero=(width == 0))
+        warg, wform, wdt = _scalar_form(case, width, 'border_width')
+        ex = dict(relabel=relabel, partial_overlap=po, border_width_zero=(width == 0), border_width_form=wform)
         if width < half:
             rm = model.masked_label_set(model.border_mask(model.data.shape, width), po)
             ex['empty_label_set'] = len(rm) == 0
-        return (op, lambda o: o.remove_border_labels(warg, **kw),
-                lambda m: m.remove_border(width, po, relabel), ex,
-                f'remove_border_labels({width},partial_overlap={po},relabel={relabel})')
+            if D.labels and len(rm) == D.nlabels:
+                case.note('axis_degenerate_every_label_removed')
+        call = _styled_call(case, op, [('border_width', warg, True), ('partial_overlap', po, give_po),
+                                       ('relabel', relabel, give_relabel)])
+        return (op, call, lambda m: m.remove_border(width, po, relabel), ex,
+                f'remove_border_labels({width},partial_overlap={po},relabel={relabel})[{wform}:{wdt}]')
     if op == 'remove_masked_labels':
         shape = model.data.shape
         r = rng.random()
@@ -692,30 +858,51 @@ def _gen_op(rng, model, D):
             mask, mk = np.zeros(shape, dtype=bool), 'all_false'
         else:
             mask, mk = np.zeros((shape[0] + 1, shape[1]), dtype=bool), 'wrong_shape'
-        po = bool(rng.random() < 0.55)
-        kw = {}
-        if rng.random() < 0.85:
-            kw['partial_overlap'] = po
-        else:
-            po = True
-        if rng.random() < 0.8:
-            kw['relabel'] = relabel
-        else:
-            relabel = False
-        ex = dict(relabel=relabel, partial_overlap=po, mask_kind=mk)
+        mask = np.ascontiguousarray(mask)
+        marg, mdk, mlk = _mask_form(case, mask)
+        ex = dict(relabel=relabel, partial_overlap=po, mask_kind=mk, mask_dtype=mdk, mask_layout=mlk)
         if mask.shape == shape:
-            ex['empty_label_set'] = len(model.masked_label_set(mask, po)) == 0
-        mask_in = mask.copy()
-        return (op, lambda o: o.remove_masked_labels(mask_in, **kw),
-                lambda m: m.remove_masked(mask, po, relabel), ex,
-                f'remove_masked_labels({mk},partial_overlap={po},relabel={relabel})')
+            rm = model.masked_label_set(mask, po)
+            ex['empty_label_set'] = len(rm) == 0
+            if D.labels and len(rm) == D.nlabels:
+                case.note('axis_degenerate_every_label_removed')
+        ex['_mask'] = (marg, np.array(marg, copy=True) if mdk != 'nested_list' else [list(r_) for r_ in marg])
+        call = _styled_call(case, op, [('mask', marg, True), ('partial_overlap', po, give_po),
+                                       ('relabel', relabel, give_relabel)])
+        return (op, call, lambda m: m.remove_masked(mask, po, relabel), ex,
+                f'remove_masked_labels({mk},partial_overlap={po},relabel={relabel})[{mdk},{mlk}]')
     if op == 'set_data':
         if rng.random() < 0.15 and D.labels:
             return ('set_data', None, None, dict(data_kind='inplace_edit_then_assign'), 'set_data(inplace_edit)')
-        value, kind = _new_data(rng, D, model.data)
+        value, kind, lay = _new_data(case, D, model.data)
         return ('set_data', lambda o: setattr(o, 'data', value), lambda m: m.set_data(value),
-                dict(data_kind=kind, _value=value), f'set_data({kind},{value.dtype},{value.shape})')
+                dict(data_kind=kind, data_layout=lay, _value=value),
+                f'set_data({kind},{value.dtype},{value.shape},{lay})')
     return ('copy', None, None, {}, 'copy()')
+
+
+def _nonbool_mask_explained(ex, before, obs, raised):
+    """Is the outcome exactly what `data[mask]` / `data[~mask]` give when a non-boolean mask is used as an
+    *index array* (the mechanism of the known finding) - so that nothing else hides behind that key?"""
+    marg, _ = ex['_mask']
+    kind = ex['mask_dtype']
+    if kind == 'nested_list':
+        return isinstance(raised, AttributeError)
+    if kind == 'float64':
+        return isinstance(raised, IndexError) or (np.shape(marg) != before.shape and isinstance(raised, ValueError))
+    if np.shape(marg) != before.shape:
+        return isinstance(raised, ValueError)
+    try:
+        rm = set(ref.labels_of(before[marg]))
+        if not ex['partial_overlap']:
+            rm -= set(ref.labels_of(before[~marg]))
+    except IndexError:
+        return isinstance(raised, IndexError)
+    if raised is not None:
+        return False
+    m = ref.LabelModel(before)
+    m.remove(sorted(rm), relabel=ex['relabel'])
+    return bool(obs.shape == m.data.shape and np.array_equal(obs, m.data))
 
 
 def _resync(model, live, before, saved):
@@ -812,7 +999,7 @@ def run_case(case):
         case.note('steps')
         if not D.labels:
             case.note('steps_starting_from_all_zero_array')
-        op, call, apply, ex, desc = _gen_op(rng, model, D)
+        op, call, apply, ex, desc = _gen_op(case, model, D)
         ops_done.append(desc)
         mech = {'op': op}
         mech.update({k: v for k, v in ex.items() if not k.startswith('_')})
@@ -837,7 +1024,13 @@ def run_case(case):
                 verify_all(case, new, model, 'copy', 'copy', st)
             case.note('op_copy')
         else:
-            if ex.get('data_kind') == 'inplace_edit_then_assign':
+            if ex.get('data_kind') == 'inplace_edit_then_assign' and not live.data.flags.writeable:
+                ex = dict(data_kind='same_array_reassigned')
+                mech['data_kind'] = 'same_array_reassigned'
+                value = live.data
+                call = lambda o: setattr(o, 'data', value)     # noqa: E731
+                apply = lambda m: m.set_data(value)            # noqa: E731
+            elif ex.get('data_kind') == 'inplace_edit_then_assign':
                 arr = live.data                           # the user edits the array in place and re-assigns it
                 lab = D.labels[int(rng.integers(0, D.nlabels))]
                 if rng.random() < 0.5:
@@ -854,6 +1047,7 @@ def run_case(case):
             before = np.array(live.data, copy=True)
             pred_exc = None
             saved = (_copy.deepcopy(model.deblend), model.child_removed)
+            saved_data = model.data
             try:
                 note = apply(model)
             except ref.Invalid as inv:
@@ -869,9 +1063,27 @@ def run_case(case):
                         raise
                     raised = exc
             case.note('op_' + op)
+            if '_mask' in ex:
+                marg, msnap = ex['_mask']
+                case.check(marg == msnap if isinstance(marg, list) else np.array_equal(marg, msnap),
+                           'mask_unchanged', {'op': op, 'mask_dtype': ex['mask_dtype']})
+            if ex.get('mask_dtype', 'bool') != 'bool':
+                mech['mask_nonbool'] = True
+                mech['nonbool_mask_explained'] = _nonbool_mask_explained(ex, before, live.data, raised)
+            if ex.get('_either') and raised is not None and pred_exc is None:
+                # a call form the documentation does not name (set): rejection is counted, not judged;
+                # the object must then be unchanged
+                case.note('undocumented_form_rejected_' + op)
+                model.data = saved_data
+                model.deblend, model.child_removed = saved
+                raised = None
+                pred_exc = ref.Invalid(type(None), 'undocumented call form')
+                mech['undocumented_form_rejected'] = True
             if ex.get('start_label_numpy_scalar') and raised is None and pred_exc is None:
                 tracked[0] = live.__dict__.get('labels')
-            if pred_exc is not None:
+            if mech.get('undocumented_form_rejected'):
+                pass
+            elif pred_exc is not None:
                 mech['rejected'] = True
                 if raised is None:
                     case.note('invalid_argument_accepted_' + op)     # outside the quantifier: no verdict
